@@ -27,3 +27,10 @@ REGISTRY = {
                         "Go slices alias a backing array; the model masks a region of a list and the harness checks the guards around it"],
     },
 }
+
+# per-property entries kept as JSON files (bin/registry.d/<Cxx>.json): {"checks": [[name, module, function], ...], "assumptions": [...], ...}
+import os as _os, json as _json, glob as _glob
+for _f in sorted(_glob.glob(_os.path.join(_os.path.dirname(_os.path.abspath(__file__)), "registry.d", "*.json"))):
+    _e = _json.load(open(_f))
+    _e["checks"] = [tuple(x) for x in _e.get("checks", [])]
+    REGISTRY[_os.path.basename(_f)[:-5]] = _e
